@@ -1044,19 +1044,22 @@ def solve(objfun, x0, h=None, lh=None, prox_uh=None, argsf=(), argsh=(), argspro
             exit_info = ExitInformation(EXIT_INPUT_ERROR, "Must provide prox_uh input if h is not None")
         elif lh is None:
             exit_info = ExitInformation(EXIT_INPUT_ERROR, "Must provide lh input if h is not None")
-        elif lh <= 0.0:
+        elif not lh > 0.0:  # (written so that NaN is rejected too, here and below)
             exit_info = ExitInformation(EXIT_INPUT_ERROR, "lh must be strictly positive")
 
     if exit_info is None and npt < n + 1:
         exit_info = ExitInformation(EXIT_INPUT_ERROR, "npt must be >= n+1 for linear models with inexact interpolation")
 
-    if exit_info is None and rhobeg <= 0.0:
+    if exit_info is None and not np.all(np.isfinite(x0)):
+        exit_info = ExitInformation(EXIT_INPUT_ERROR, "x0 must be finite")
+
+    if exit_info is None and not rhobeg > 0.0:
         exit_info = ExitInformation(EXIT_INPUT_ERROR, "rhobeg must be strictly positive")
 
-    if exit_info is None and rhoend <= 0.0:
+    if exit_info is None and not rhoend > 0.0:
         exit_info = ExitInformation(EXIT_INPUT_ERROR, "rhoend must be strictly positive")
 
-    if exit_info is None and rhobeg <= rhoend:
+    if exit_info is None and not rhobeg > rhoend:
         exit_info = ExitInformation(EXIT_INPUT_ERROR, "rhobeg must be > rhoend")
 
     if exit_info is None and maxfun <= 0:
@@ -1071,7 +1074,7 @@ def solve(objfun, x0, h=None, lh=None, prox_uh=None, argsf=(), argsh=(), argspro
     if exit_info is None and np.shape(x0) != np.shape(xu):
         exit_info = ExitInformation(EXIT_INPUT_ERROR, "upper bounds must have same shape as x0")
 
-    if exit_info is None and np.min(xu - xl) < 2.0 * rhobeg:
+    if exit_info is None and not np.min(xu - xl) >= 2.0 * rhobeg:
         exit_info = ExitInformation(EXIT_INPUT_ERROR, "gap between lower and upper must be at least 2*rhobeg")
 
     if maxfun <= npt:
